@@ -171,7 +171,7 @@ func values(name string) []interface{} {
 	case "Skip":
 		return []interface{}{"", "zzz"}
 	case "M":
-		return []interface{}{"", "one", "one\ntwo", "one\ntwo\n", "one\n\nthree"}
+		return []interface{}{"", "one", "one\ntwo", "one\ntwo\n", "one\n\nthree", "one\ntwo\n\n", "one\n\n\n"}
 	case "P":
 		return []interface{}{(*version.Version)(nil), &v1}
 	}
@@ -407,6 +407,20 @@ func ptFeatures(in PTIn) []string {
 	return f
 }
 
+// refValueOf: the value a reader reports for a field whose text after "Name: " is v (continuation lines inside v start
+// with their marker; " ." is an empty line) - the deb822 reference of C07.
+func refValueOf(v string) string {
+	parts := strings.Split(v, "\n")
+	f := gen.DField{Name: "X", First: parts[0]}
+	for _, l := range parts[1:] {
+		if l == "" {
+			continue
+		}
+		f.Cont = append(f.Cont, gen.DLine{Marker: l[0], Text: l[1:]})
+	}
+	return f.RefValue()
+}
+
 func checkPT(scen string, in PTIn) []*mc.Violation {
 	feats := ptFeatures(in)
 	var doc strings.Builder
@@ -465,12 +479,12 @@ func checkPT(scen string, in PTIn) []*mc.Violation {
 	var wantUnknown, gotUnknown []string
 	for _, f := range in.Fields {
 		if f[0] != "Known1" && f[0] != "Known-Two" && f[0] != "Known-3" {
-			wantUnknown = append(wantUnknown, f[0]+"="+f[1])
+			wantUnknown = append(wantUnknown, f[0]+"="+strings.TrimSuffix(refValueOf(f[1]), "\n"))
 		}
 	}
 	for _, k := range para.Order {
 		if k != "Known1" && k != "Known-Two" && k != "Known-3" {
-			gotUnknown = append(gotUnknown, k+"="+para.Values[k])
+			gotUnknown = append(gotUnknown, k+"="+strings.TrimSuffix(para.Values[k], "\n"))
 		}
 	}
 	if strings.Join(wantUnknown, "|") != strings.Join(gotUnknown, "|") {
@@ -798,6 +812,8 @@ func Run(r *mc.Run) {
 		return true
 	})
 
+	typesScenario(r)
+
 	// the library's own typed documents as struct values
 	c10.AddRemarshalScenario(r, r.Pick(1, 2))
 
@@ -805,6 +821,7 @@ func Run(r *mc.Run) {
 	known := [][2]string{{"Known1", "k one"}, {"Known-Two", "a, b"}, {"Known-3", "1:2.0-1"}}
 	unknown := [][2]string{{"X-Extra", "u1"}, {"Zeta", "u 2"}}
 	// unknown fields whose names differ from a known key only in letter case are unknown fields all the same
+	unknownML := [][2]string{{"X-Extra", "u1\n more\n .\n last\n ."}, {"Zeta", "\n line one\n .\n .\n\tline four\n ."}}
 	unknownAlt := [][2]string{{"known1", "case-variant 1"}, {"KNOWN-TWO", "case-variant 2"}}
 	var docs [][][2]string
 	// all interleavings of every subset of known (in order) with every subset of unknown (in order)
@@ -829,6 +846,16 @@ func Run(r *mc.Run) {
 			orders := [][][2]string{us}
 			if len(usAlt) > 0 {
 				orders = append(orders, usAlt)
+			}
+			// multi-line unknown fields, with empty lines inside and at the end
+			var usML [][2]string
+			for b := 0; b < 2; b++ {
+				if um&(1<<b) != 0 {
+					usML = append(usML, unknownML[b])
+				}
+			}
+			if len(usML) > 0 {
+				orders = append(orders, usML)
 			}
 			if len(us) == 2 {
 				orders = append(orders, [][2]string{us[1], us[0]})
@@ -950,6 +977,13 @@ func Replay(scenario string, raw json.RawMessage) []*mc.Violation {
 	}
 	if scenario == c10.RemarshalScenario {
 		return c10.ReplayRemarshal(raw)
+	}
+	if scenario == "types-sharing-a-name" {
+		var in TypesIn
+		if mc.UnmarshalInput(raw, &in) == nil {
+			return checkTypes(scenario, in)
+		}
+		return nil
 	}
 	if scenario == "struct-lists" {
 		var in ListIn
